@@ -14,6 +14,9 @@ pub const PLAIN_KEYS: &[&str] = &[
     // look-alikes that only a Unicode normalisation would identify (precomposed / decomposed, compatibility
     // characters), case variants, and long names
     "e\u{301}", "\u{c5}", "\u{212b}", "A\u{30a}", "\u{df}", "ss", "SS", "\u{131}", "i", "I",
+    // words of other scripts (Cyrillic, CJK, Arabic and Hebrew - right to left -, Devanagari with combining
+    // marks, Greek final sigma, Turkish dotted capital I)
+    "\u{43a}\u{43b}\u{44e}\u{447}", "\u{540d}\u{524d}", "\u{645}\u{641}\u{62a}\u{627}\u{62d}", "\u{5de}\u{5e4}\u{5ea}\u{5d7}", "\u{915}\u{941}\u{902}\u{91c}\u{940}", "\u{3c2}", "\u{130}",
     // a full stop followed by a blank, C1 controls (allowed unescaped), a soft hyphen
     "a. b", "Dr. X", "\u{85}", "x\u{9f}y", "\u{ad}",
     // structural characters of the query language inside names
@@ -107,9 +110,9 @@ pub fn gen_scalar(src: &mut Src) -> J {
         0 => J::Null,
         1 => J::Bool(false),
         2 => J::Bool(true),
-        3 => J::Int(*src.pick(&[0, 1, 2, -1, 3, 5, 10, 100])),
-        4 => J::Float(*src.pick(&[1.0, 1.5, 0.5, -0.0, 2.0, 0.1, 1e2, -1.5, 0.0])),
-        5 => J::Str(src.pick(&["", "a", "b", "ab", "1", "A", "é", "𝄞", "abc", " ", "a. b", "(", "f(x)"]).to_string()),
+        3 => J::Int(*src.pick(&[0, 1, 2, -1, 3, 5, 10, 100, 1_700_000_000_000, 1_234_567_890_123_456, 4_294_967_296, -2_147_483_649])),
+        4 => J::Float(*src.pick(&[1.0, 1.5, 0.5, -0.0, 2.0, 0.1, 1e2, -1.5, 0.0, 0.3, 0.30000000000000004, 1e-20])),
+        5 => J::Str(src.pick(&["", "a", "b", "ab", "1", "A", "é", "𝄞", "abc", " ", "a. b", "(", "f(x)", "2024-02-29T23:59:60Z"]).to_string()),
         _ => match src.below(7) {
             4 => J::Str(src.pick(&["x", "é", "𝄞"]).repeat(*src.pick(&[64usize, 255, 256, 257, 1000]))),
             // integers beyond the I-JSON range (a document may hold them; a query literal may not): a
